@@ -1287,7 +1287,7 @@ class BoxQP(Case):
 
 # ------------------------------------------------------------------------------------- generation
 def gen_cases(rng, tier):
-    T = 1 if tier == "quick" else 6
+    T = 1 if tier == "quick" else 5
     cs = []
     lens = list(range(0, 14)) + [15, 16, 17, 19, 20, 23, 31, 32, 33]
     for n in lens:
@@ -1481,6 +1481,29 @@ def gen_cases(rng, tier):
         B = [[rng.uniform(-1, 1) for _ in range(max(1, n - 1))] for _ in range(n)]
         A = matmul(B, transp(B, n, max(1, n - 1)))
         cs.append(CholFactor(n=n, A=A, mindiag=rng.choice([1e-10, 1e-3]), spd=False))
+    # pivot ties: small-integer matrices (equal magnitudes in a column), accepted when exactly non-singular
+    from fractions import Fraction
+    for _ in range(8 * T):
+        n = rng.randrange(2, 6)
+        for _try in range(20):
+            Ai = [[rng.randrange(-2, 3) for _j in range(n)] for _i in range(n)]
+            Fm = [[Fraction(x) for x in r] for r in Ai]
+            det = Fraction(1)
+            for k in range(n):
+                pv = next((i for i in range(k, n) if Fm[i][k] != 0), None)
+                if pv is None:
+                    det = Fraction(0)
+                    break
+                if pv != k:
+                    Fm[k], Fm[pv] = Fm[pv], Fm[k]
+                    det = -det
+                det *= Fm[k][k]
+                for i in range(k + 1, n):
+                    fct = Fm[i][k] / Fm[k][k]
+                    Fm[i] = [a - fct * b for a, b in zip(Fm[i], Fm[k])]
+            if det != 0:
+                cs.append(LU(n=n, A=[[float(x) for x in r] for r in Ai], b=rvals(rng, n, "i")))
+                break
     for _ in range(4 * T):
         A = [[rng.uniform(-1, 1) + (2.0 if i == j else 0.0) for j in range(6)] for i in range(6)]
         cs.append(LU6(A=A, b=rvals(rng, 6, "u")))
@@ -1528,6 +1551,29 @@ def gen_cases(rng, tier):
             B = [a, 0, rng.choice([0, 0.5]), a, 0, rng.choice([a, 1.0])]
         M = [B[0], B[1], B[2], B[1], B[3], B[4], B[2], B[4], B[5]]
         cs.append(Eig3(M=M))
+    # structured symmetric 3x3 matrices: every combination of off-diagonal magnitudes from {0, a, b} with signs (ties between
+    # the off-diagonal entries, single pairs, mirror-symmetric inertias), equal / distinct diagonals, tiny entries
+    import itertools
+    smalls = []
+    for o01, o02, o12 in itertools.product([0.0, 1.0, -1.0, 0.3], repeat=3):
+        for dg in ((2.0, 3.0, 3.0), (5.0, 1.0, 7.0), (1.0, 1.0, 1.0)):
+            smalls.append([dg[0], o01, o02, o01, dg[1], o12, o02, o12, dg[2]])
+    smalls.append([2.0, 1.0, 1.0, 1.0, 3.0, 0.0, 1.0, 0.0, 3.0])
+    smalls.append([5.0, -0.3, 0.3, -0.3, 1.0, 0.0, 0.3, 0.0, 7.0])
+    smalls.append([1.0, 1e-13, 1e-13, 1e-13, 2.0, 0.5, 1e-13, 0.5, 3.0])
+    smalls.append([1.0, 0.5, 0.5, 0.5, 2.0, 1e-13, 0.5, 1e-13, 3.0])
+    if T == 1:
+        rng.shuffle(smalls)
+        smalls = smalls[:2] + [m_ for m_ in smalls[2:] if rng.random() < 0.45] + [[2.0, 1.0, 1.0, 1.0, 3.0, 0.0, 1.0, 0.0, 3.0], [5.0, -0.3, 0.3, -0.3, 1.0, 0.0, 0.3, 0.0, 7.0]]
+    for M in smalls:
+        cs.append(Eig3(M=list(M)))
+    for _ in range(10 * T):
+        a, b = rng.uniform(-2, 2), rng.uniform(-2, 2)
+        pat = rng.choice([(a, a, 0.0), (a, -a, 0.0), (a, 0.0, a), (0.0, a, -a), (a, a, a), (a, a, b), (a, b, a), (b, a, a), (a, -a, 1e-14)])
+        dgl = [rng.uniform(-3, 3) for _k in range(3)]
+        if rng.random() < 0.3:
+            dgl[1] = dgl[2]
+        cs.append(Eig3(M=[dgl[0], pat[0], pat[1], pat[0], dgl[1], pat[2], pat[1], pat[2], dgl[2]]))
     for _ in range(30 * T):
         n = rng.randrange(1, 6)
         A = rspd(rng, n, 0.5)
